@@ -59,9 +59,16 @@ var knownConsumers = map[string]string{
 }
 
 func wellKnownMime(tn string) (string, bool) {
-	for k, v := range mediaTypeNames {
+	// several expressions may match (application/x-tar.gz matches ".*gzip" and ".*tar"):
+	// pick the first one in a fixed order, not in map iteration order
+	exprs := make([]*regexp.Regexp, 0, len(mediaTypeNames))
+	for k := range mediaTypeNames {
+		exprs = append(exprs, k)
+	}
+	sort.Slice(exprs, func(i, j int) bool { return exprs[i].String() < exprs[j].String() })
+	for _, k := range exprs {
 		if k.MatchString(tn) {
-			return v, true
+			return mediaTypeNames[k], true
 		}
 	}
 	return "", false
